@@ -62,13 +62,67 @@ func (g *Gen) ok(e Expr) Expr {
 	if c && g.Cfg.ConstOK != nil && !g.Cfg.ConstOK(e) {
 		return nil
 	}
-	if b, isBin := e.(*Binary); isBin && (b.Op == "+" || b.Op == "-" || c) && (b.L.T().Kind == KMat || b.R.T().Kind == KMat) && (IsConst(b.L) || IsConst(b.R)) {
+	if b, isBin := e.(*Binary); isBin && Constish(e) && hasRef(e) {
+		switch b.Op {
+		case "+", "-", "*", "/":
+		default:
+			// backends that fold constants see through lets of constants and evaluate only + - * / (finding F76)
+			if !g.on("cmp.folded-through-let") {
+				return nil
+			}
+			g.feat("cmp.folded-through-let")
+		}
+	}
+	if b, isBin := e.(*Binary); isBin && (b.Op == "+" || b.Op == "-" || c) && (b.L.T().Kind == KMat || b.R.T().Kind == KMat) && (Constish(b.L) || Constish(b.R)) {
 		if !g.on("const.mat-binary") {
 			return nil
 		}
 		g.feat("const.mat-binary")
 	}
 	return e
+}
+
+// Constish: const-expression, or built only from const-expressions and lets initialised by const-expressions
+// (backends that fold constants see through such lets).
+func Constish(e Expr) bool {
+	switch e := e.(type) {
+	case *Lit:
+		return true
+	case *Ref:
+		return e.V.Kind == VConst || e.V.Kind == VLet && e.V.ConstInit
+	case *Materialize:
+		return Constish(e.X)
+	case *Paren:
+		return Constish(e.X)
+	case *Unary:
+		return Constish(e.X)
+	case *Binary:
+		return Constish(e.L) && Constish(e.R)
+	case *Builtin:
+		if !constBuiltin[e.Name] {
+			return false
+		}
+		for _, a := range e.Args {
+			if !Constish(a) {
+				return false
+			}
+		}
+		return true
+	case *Cons:
+		for _, a := range e.Args {
+			if !Constish(a) {
+				return false
+			}
+		}
+		return true
+	case *Index:
+		return Constish(e.X) && Constish(e.I)
+	case *Field:
+		return Constish(e.X)
+	case *Swiz:
+		return Constish(e.X)
+	}
+	return false
 }
 
 func (g *Gen) genExprNoSideFx(t *Type, depth int) Expr {
@@ -373,7 +427,14 @@ func (g *Gen) genBool(depth int) Expr {
 		t := []*Type{I32, U32, F32}[r.Intn(3)]
 		op := []string{"==", "!=", "<", "<=", ">", ">="}[r.Intn(6)]
 		g.feat("cmp." + op + "." + t.key)
-		return &Binary{Op: op, L: g.genExpr(t, depth-1), R: g.genExprT(t, depth-1), Ty: Bool}
+		cmp := &Binary{Op: op, L: g.genExpr(t, depth-1), R: g.genExprT(t, depth-1), Ty: Bool}
+		if Constish(cmp) && !IsConst(cmp) {
+			if !g.on("cmp.folded-through-let") {
+				return nil
+			}
+			g.feat("cmp.folded-through-let")
+		}
+		return cmp
 	case 3:
 		op := []string{"&&", "||", "&", "|", "==", "!="}[r.Intn(6)]
 		g.feat("logic." + op)
@@ -434,7 +495,7 @@ func (g *Gen) shiftAmount(width int, depth int) Expr {
 
 // divisor: never a const zero (WGSL makes that a shader-creation error); runtime zero is fine (defined result).
 func (g *Gen) divisor(t *Type, depth int) Expr {
-	if g.R.Chance(1, 2) {
+	if g.R.Chance(1, 2) && g.on("div.runtime-divisor") {
 		if e := g.nonConst(t, depth-1); e != nil {
 			g.feat("div.runtime-divisor")
 			return e
@@ -469,6 +530,9 @@ var intBin = []string{"+", "-", "*", "/", "%", "&", "|", "^", "<<", ">>"}
 
 func (g *Gen) genIntBinary(t *Type, depth int) Expr {
 	op := intBin[g.R.Intn(len(intBin))]
+	if op == "%" && t.Scalar().Kind == KI32 && !g.on("op.%.i32") {
+		op = "^"
+	}
 	g.feat("op." + op + "." + t.ShapeName())
 	switch op {
 	case "<<", ">>":
@@ -704,7 +768,7 @@ func (g *Gen) genFloatLike(t *Type, depth int) Expr {
 	case 6:
 		g.feat("fn.select")
 		ct := Bool
-		if t.Kind == KVec && r.Bool() {
+		if t.Kind == KVec && r.Bool() && g.on("fn.select.vec-cond") {
 			ct = g.U.Vec(t.N, Bool)
 			g.feat("fn.select.vec-cond")
 		}
@@ -1159,4 +1223,14 @@ func hasDerefParam(e Expr) bool {
 		return hasDerefParam(e.X)
 	}
 	return false
+}
+
+func hasRef(e Expr) bool {
+	found := false
+	WalkExpr(e, func(x Expr) {
+		if _, ok := x.(*Ref); ok {
+			found = true
+		}
+	})
+	return found
 }
